@@ -373,6 +373,23 @@ def replay_generic(d):
     finally:
         run.cleanup()
 
+def apalache(run, module, cinit, inv, length=0, timeout=1800):
+    """Symbolic check of a design-level lemma with Apalache (SMT): no enumeration of the initial states.
+    Anything but 'NoError' is exit 2 (a refuted lemma means the specification is wrong, not the code)."""
+    d = run.path("apa." + module)
+    shutil.rmtree(d, ignore_errors=True); os.makedirs(d)
+    shutil.copy(os.path.join(SPEC, module + ".tla"), d)
+    cmd = ["apalache-mc", "check", "--cinit=" + cinit, "--inv=" + inv, "--length=%d" % length, "--out-dir=" + os.path.join(d, "out"), module + ".tla"]
+    t0 = time.time()
+    try:
+        p = subprocess.run(cmd, cwd=d, stdout=subprocess.PIPE, stderr=subprocess.STDOUT, text=True, timeout=timeout)
+    except subprocess.TimeoutExpired:
+        raise Infra("apalache timeout (%ds) on %s" % (timeout, module))
+    run.tlc_cmds.append(" ".join(cmd[:5]) + " " + module + ".tla")
+    if "The outcome is: NoError" not in p.stdout:
+        raise Infra("apalache did not confirm %s of %s:\n%s" % (inv, module, p.stdout[-2000:]))
+    return round(time.time() - t0, 1)
+
 # ---------------------------------------------------------------- binding self-test
 def corrupt_event(ev, prop):
     """One recorded field of one observation event changed into an answer the property forbids (or None when this
